@@ -277,16 +277,20 @@ func (s *IndexedState) Add(ctx *Context, id string, x Map) (string, error) {
 		fact := s.IdToFact[id]
 		js, err = json.Marshal(&fact)
 	}
+	if nil == err {
+		// Write to storage before releasing the lock (as Rem
+		// does).  Otherwise two concurrent writers of one id could
+		// reach storage in the opposite order, and storage would
+		// keep a different fact than memory.
+		d := Pair{[]byte(id), js}
+		err = s.Store.Add(ctx, s.Name, &d)
+		if err != nil {
+			Log(WARN, ctx, "IndexedState.Add", "state", s.Name, "factjs", string(js), "id", id, "error", err)
+		}
+	}
 	s.sunlock(ctx, false)
 
 	if nil != err {
-		return "", err
-	}
-	d := Pair{[]byte(id), js}
-
-	err = s.Store.Add(ctx, s.Name, &d)
-	if err != nil {
-		Log(WARN, ctx, "IndexedState.Add", "state", s.Name, "factjs", string(js), "id", id, "error", err)
 		return "", err
 	}
 	return id, err
